@@ -304,7 +304,7 @@ fn oracle_all() {
     let leaves = ["int", "String", "CharSequence", "a.Foo", "b.Foo", "a.Bar", "Q", "IBinder", "FileDescriptor", "ParcelFileDescriptor", "ParcelableHolder", "Nope", "List", "Map", "int[]", "List<String>"];
     for l in leaves.iter() {
         let mut s = String::from("package p;\nimport a.Foo; import b.Foo; import a.Bar;\nparcelable Q;\nparcelable P {\n");
-        s += &format!("  {l}[] a; List<{l}> b; Map<String, {l}> c; Map<{l}, String> d;\n  List<List<{l}[]>> e; Map<String, Map<String, {l}[]>> f; {l}[][][] g; const int K = 1;\n}}\n", l = l);
+        s += &format!("  {l}[] a; List<{l}> b; Map<String, {l}> c; Map<{l}, String> d;\n  List<List<{l}[]>> e; Map<String, Map<String, {l}[]>> f; {l}[][][] g; const int K = 1;\n  Map<{l}, {l}> h; Map<int, {l}> i; Map<List<String>, Map<{l}, {l}[]>> j;\n}}\n", l = l);
         let mut files = lib_files(); files.push((0, s)); projects.push(files);
     }
     // ---- family 4 (C09): method sequences up to 4 over 3 names x {no code, 3 codes}, constants interleaved
